@@ -1,7 +1,9 @@
 """C20 - interpolation, rolling average, step-fit and NZS 1170.5 design-spectrum helpers match their definitions."""
 import contextlib
+import hashlib
 import io
 import math
+import os
 
 import numpy as np
 from hypothesis import strategies as st
@@ -15,34 +17,44 @@ from pbt.core import clause, enum_clause, HarnessError
 PROPERTY = "C20"
 CLAUSES = []
 ASSUMPTIONS = [
-    "interp2d: x, xf, f are ndarrays (the function indexes them; the repo's tests pass ndarrays), f is 2-D (len(xf), m), "
-    "1 <= len(xf) <= 12, nodes strictly increasing with spacing >= 1e-6*span and >= 1e-5 absolute (the code clips "
-    "denominators at 1e-10: node sets spaced closer than that are outside the explored domain), |nodes| <= 3e6, |f| <= 1e3",
+    "interp2d: x, xf, f are ndarrays (the function indexes them; the repo's tests pass ndarrays), f is 2-D (len(xf), m); "
+    "'monotone node sets' is read as strictly increasing (np.interp's convention; the pinned code brackets wrongly on decreasing "
+    "nodes - reported, not checked); 1 <= len(xf) <= 12 in the random clause, 13 .. 5000 nodes x 9 .. 3e5 queries x 1 .. 40 columns "
+    "in the mid-range enumeration; node spacing >= 1e-9 absolute and >= 1e-6*span (the code clips denominators at 1e-10: node "
+    "sets spaced closer than that are outside the explored domain), |nodes| <= 3e6, |f| <= 1e3",
     "interp2d tolerance: 1e-12*(|f_lo|+|f_hi|) of the bracketing rows, also on nodes and outside (an implementation need not "
     "be bit-exact there)",
     "interp_left: nodes non-decreasing; for repeated nodes the value at any of the equal greatest nodes is accepted; at "
-    "least one query; queries are python/NumPy scalars, lists or ndarrays",
+    "least one query; queries are python/NumPy scalars, lists or ndarrays; a query below the first node has no 'greatest node "
+    "not exceeding the query': the call must raise (any exception class) rather than return a value",
     "rolling average: for even window sizes 'centred' is ambiguous; either of the two placements (floor(steps/2) samples "
-    "before, or floor(steps/2) after) is accepted provided the same one is used for every sample; steps is an int in 1..len; "
-    "bound eps*sum|extended series| + 4*eps*max|v| (cumulative-sum differencing: the two prefix sums share all rounding "
-    "errors but the last `steps`, each <= eps/2*|prefix|); 2 ulp of the result when all window sums are exact (dyadic / "
-    "integer data: only the division rounds)",
-    "step-fit: 1 <= n <= 150 (the code builds n x n triangles), scale = n*max|v|^p, tolerance 1e-10*scale "
-    "(rigorous bound of the zero-padded formulation ~ c*eps*n*scale with n <= 150)",
-    "step-fit `dir`: the docstring does not say whether the split sample belongs to the compared means, so an entry must be "
-    "penalised (10*max error) only when every reading (pre with/without the split sample vs post with/without it) agrees the "
-    "step goes the unwanted way, must be left alone when every reading says it goes the wanted way, and may be either "
-    "otherwise (incl. the last, no-step entry); means closer than 1e-9*max|v| are ambiguous",
-    "calc_step_fn_steps_vals: 1 <= ind <= n-2 (both sides non-empty); with ind=None only when every index whose reference "
-    "error is within tolerance of the minimum lies in 1..n-2 (otherwise a side is empty and the statement says nothing)",
+    "before, or floor(steps/2) after) is accepted provided the same one is used for every sample; steps is an int (python or "
+    "NumPy) in 1..len; bound eps*sum|extended series| + 4*eps*max|v| (cumulative-sum differencing: the two prefix sums share "
+    "all rounding errors but the last `steps`, each <= eps/2*|prefix|); on dyadic / integer data (every partial sum exact in any "
+    "order) the bound of a direct or convolution-type evaluation, (steps+4)*eps*sum|window|/steps per sample",
+    "step-fit: 1 <= n <= 1400 in the random clause, 151 .. 8200 (thorough 10500) in the mid-range enumeration (the code builds "
+    "n x n triangles), scale = n*max|v|^p, tolerance 1e-10*scale (rigorous bound of the zero-padded formulation ~ c*eps*n*scale)",
+    "step-fit `dir` is a documented option (docstring: 'down' -> all upward steps are set to 10x the maximum error, 'up' -> all "
+    "downward steps), so the documented domain of the statement includes it; the docstring does not say whether the split sample "
+    "belongs to the compared means, so an entry must be penalised (10*max error) only when every reading (pre with/without the "
+    "split sample vs post with/without it) agrees the step goes the unwanted way, must be left alone when every reading says it "
+    "goes the wanted way, and may be either otherwise (incl. the last, no-step entry); means closer than 1e-9*max|v| are ambiguous",
+    "calc_step_fn_steps_vals: 1 <= ind <= n-2 (both sides non-empty); with ind=None the split of minimal error for pow=1 OR "
+    "pow=2 is accepted (the statement does not say which power selects the split); when a minimiser lies at an end (a side is "
+    "empty) the call may raise or return nan for that side",
     "nzs1170: T in {0} U [1e-9, 1e4] python floats / float ndarrays / lists, Z, N, R in [0.01, 10], g = 9.81 as in the module; "
     "the identity S_d = C_h*T^2*Z*N*R is asserted to 1e-12 relative for every T, exactly on the tabulated boundaries too (the "
-    "statement quantifies over all T >= 0, so both functions must put a boundary on the same side)",
-    "nzs1170 continuity scan: |dlnC_h/dlnT| <= 2 on every tabulated segment (steepest is the constant-displacement branch "
-    "~T^-2), so neighbouring grid points a factor (1+h), h <= 2e-4, apart differ by at most 2h + the table-precision jump "
-    "(largest tabulated 0.4 %) < 1 %",
+    "statement quantifies over all T >= 0, so both functions must put a boundary on the same side); python-int / NumPy-int / "
+    "NumPy-float32 periods for c_h_factor and array / list periods for sd_nzs (they raised before the repairs 74419a1 / 3a847d0) "
+    "are fixed findings C20-F2 / C20-F3 and are checked: a np.float32 period means its exact double value)",
+    "nzs1170 'table precision' = the three significant figures of the tabulated coefficients: a relative jump of at most 0.5 % "
+    "(largest tabulated jump 0.40 %, class D at 0.56 s); continuity scan: |dlnC_h/dlnT| <= 2 and |dlnS_d/dlnT| <= 3 on every "
+    "segment, so neighbouring grid points a factor (1+h) apart differ by at most 0.5 % + 2.05h (3.05h)",
+    "nzs1170: rejection (T < 0, unknown class, d > d_c) is asserted as 'raises some exception'; array results agree with the "
+    "scalar calls to 4 eps (a vectorised implementation may round differently); the container of a scalar result is free",
     "t_eff: 0 <= d; exactly d == d_c is ambiguous (d_c is recomputed with a different operation order), so rejection is "
     "tested at d_c*(1+1e-9) and acceptance at d <= d_c*(1-1e-9)",
+    "purity of the arguments is property C05's claim and is not asserted here",
 ]
 EPS = np.finfo(float).eps
 LD = np.longdouble
@@ -64,8 +76,13 @@ def _quiet(fn):
 
 @st.composite
 def _nodes(draw, min_n=1, max_n=12, allow_dup=False):
-    style = draw(st.sampled_from(["int", "dyadic", "float", "float", "tight"]))
+    style = draw(st.sampled_from(["int", "dyadic", "float", "float", "tight", "close"]))
     n = draw(st.one_of(st.integers(min_n, max_n), st.integers(max(min_n, 3), max_n)))
+    if style == "close":
+        # node spacing 1e-9 .. 1e-5 (the statement says ALL monotone node sets; the pinned code's weight guard sits at 1e-10)
+        return {"style": "float", "x0": draw(st.floats(-1e3, 1e3, allow_nan=False)),
+                "unit": 10.0 ** draw(st.integers(-9, -6)) * draw(st.floats(1.0, 10.0, allow_nan=False)),
+                "gaps": draw(st.lists(gen.log_uniform(1.0, 30.0), min_size=n - 1, max_size=n - 1))}
     if style in ("int", "dyadic"):
         return {"style": style, "start": draw(st.integers(-50, 50)),
                 "gaps": draw(st.lists(st.integers(0, 3) if allow_dup else st.integers(1, 8), min_size=n - 1, max_size=n - 1)),
@@ -189,23 +206,25 @@ def _interp2d_cases(draw):
     el = st.integers(-20, 20) if fint else st.one_of(st.floats(-1e3, 1e3, allow_nan=False, allow_subnormal=False),
                                                      st.integers(-8, 8).map(float))
     f = draw(st.lists(st.lists(el, min_size=m, max_size=m), min_size=n, max_size=n))
-    return {"nodes": nodes, "f": f, "fint": fint, "q": draw(_queries(1, 8, ("frac", "node", "frac", "mid", "left", "right"))), "xint": draw(st.booleans())}
+    return {"nodes": nodes, "f": f, "fint": fint, "q": draw(_queries(1, 8, ("frac", "node", "frac", "mid", "left", "right"))), "xint": draw(st.booleans()),
+            "args_as": draw(st.sampled_from(["array", "array", "list", "tuple", "mixed"])),
+            "fdtype": draw(st.sampled_from(["int64", "int64", "int16", "int8", "int32"]))}
 
 
 @clause(CLAUSES, "interp2d", _interp2d_cases(), quick=800, thorough=5000,
         rule="1-12 strictly increasing nodes (integer / dyadic / float with gaps over 4 decades, unit 1e-3..1e3), 1-4 columns "
-             "(float or integer table), 1-8 queries drawn as on-node / fractional / exact midpoint / left outside / right outside; "
+             "(float or integer table; spacing 1e-9 .. 1e5), 1-8 queries drawn as on-node / fractional / exact midpoint / left outside / right outside; "
              "non-trivial = some query strictly between two nodes whose rows differ",
         oracle="reference model: loop over queries and columns, bracket by linear scan, long-double linear interpolation with end "
-               "clamping (validated against numpy.interp at import); tolerance 1e-12*(|f_lo|+|f_hi|); inputs not mutated",
+               "clamping (validated against numpy.interp at import); tolerance 1e-12*(|f_lo|+|f_hi|)",
         require={"inside": 0.3, "on-node": 0.3, "left-out": 0.12, "right-out": 0.12, "f-int": 0.08, "x-int": 0.02,
-                 "query-in-gap<1e-3": 0.02})
+                 "query-in-gap<1e-3": 0.02, "query-in-gap<1e-5": 0.03, "args=list": 0.08, "args=tuple": 0.08, "f-narrow-int": 0.04})
 def interp2d(case, ctx):
     xf = _build_nodes(case["nodes"])
     n = len(xf)
     if n > 1:
         gaps = np.diff(xf.astype(float))
-        if not (np.all(gaps > 0) and gaps.min() >= 1e-6 * float(xf[-1] - xf[0]) and gaps.min() >= 1e-5):
+        if not (np.all(gaps > 0) and gaps.min() >= 1e-6 * float(xf[-1] - xf[0]) and gaps.min() >= 0.9e-9):
             raise HarnessError("interp2d generator left its stated domain: %r" % (xf,))
     x = _build_queries(case["q"], xf)
     if case.get("xint") and xf.dtype.kind == "i":
@@ -218,10 +237,23 @@ def interp2d(case, ctx):
     ctx.cls("nodes=" + case["nodes"]["style"], "f-int" if case["fint"] else "f-float", "n=1" if n == 1 else None)
     if n > 1 and any(xf[j] < q < xf[j + 1] and xf[j + 1] - xf[j] < 1e-3 for q in x for j in range(n - 1)):
         ctx.cls("query-in-gap<1e-3")
+    if n > 1 and any(xf[j] < q < xf[j + 1] and xf[j + 1] - xf[j] < 1e-5 for q in x for j in range(n - 1)):
+        ctx.cls("query-in-gap<1e-5")
     if any(k == "mid" for k, _, _ in case["q"]) and n > 1:
         ctx.cls("midpoint")
-    x_b, xf_b, f_b = x.copy(), xf.copy(), f.copy()
-    out = ctx.lib(eqsig.fns.interp2d, x, xf, f)
+    if case["fint"] and case.get("fdtype", "int64") != "int64":
+        f = f.astype(case["fdtype"])   # |f| <= 20: narrow integer tables hold the same values
+        ctx.cls("f-narrow-int")
+    how = case.get("args_as", "array")
+    ctx.cls("args=" + how)
+    if how == "list":      # array_like arguments (fixed finding C20-F4)
+        out = ctx.lib(eqsig.fns.interp2d, x.tolist(), xf.tolist(), f.tolist())
+    elif how == "tuple":
+        out = ctx.lib(eqsig.fns.interp2d, tuple(x.tolist()), tuple(xf.tolist()), tuple(tuple(r) for r in f.tolist()))
+    elif how == "mixed":
+        out = ctx.lib(eqsig.fns.interp2d, x.tolist(), xf, f.tolist())
+    else:
+        out = ctx.lib(eqsig.fns.interp2d, x, xf, f)
     out = np.asarray(out)
     ctx.shape(out, (len(x), m), "interp2d result")
     ref, mag = _ref_interp2d(x, xf, f)
@@ -234,9 +266,6 @@ def interp2d(case, ctx):
     ctx.nt(nt)
     ctx.close(out, ref, 1e-12 * mag, "interp2d vs column-wise linear interpolation with end clamping (x=%r, xf=%r)" % (
         x.tolist(), xf.tolist()))
-    ctx.equal(x, x_b, "query array mutated")
-    ctx.equal(xf, xf_b, "node array mutated")
-    ctx.equal(f, f_b, "table mutated")
 
 
 # ---------------------------------------------------------------------------
@@ -256,7 +285,7 @@ def _interp_left_cases(draw):
     below = draw(st.sampled_from([False, True, False]))
     kinds = ("node", "frac", "mid", "right", "left") if below else ("node", "node", "frac", "mid", "right")
     return {"nodes": nodes, "y": y, "q": draw(_queries(1, 8, kinds)), "scalar": draw(st.booleans()),
-            "xc": draw(st.sampled_from(["list", "array"])), "qc": draw(st.sampled_from(["list", "array", "np", "py"])),
+            "xc": draw(st.sampled_from(["list", "array"])), "qc": draw(st.sampled_from(["list", "array", "np", "py", "tuple"])),
             "yc": draw(st.sampled_from(["list", "array"]))}
 
 
@@ -265,7 +294,7 @@ def _interp_left_cases(draw):
              "nodes / between / beyond the last node / (1/3 of cases, one kind in five) below the first node; scalar (python or NumPy) and list/ndarray "
              "queries, list/ndarray nodes; non-trivial = >= 2 nodes and a query at or above the second node, or a rejection",
         oracle="reference model: linear scan for the greatest node <= query, value equality (exact); any query below x[0] -> "
-               "AssertionError",
+               "some exception, the remaining queries are then checked on their own",
         require={"on-node": 0.3, "inside": 0.15, "right-out": 0.08, "rejects": 0.04, "scalar": 0.12, "y-none": 0.15, "dup-nodes": 0.02})
 def interp_left(case, ctx):
     xf = _build_nodes(case["nodes"])
@@ -284,15 +313,24 @@ def interp_left(case, ctx):
     if scalar:
         q_arg = x0[0].item() if case["qc"] in ("list", "py") else x0[0]
     else:
-        q_arg = x0.tolist() if case["qc"] in ("list", "py") else x0.copy()
+        q_arg = x0.tolist() if case["qc"] in ("list", "py") else (tuple(x0.tolist()) if case["qc"] == "tuple" else x0.copy())
     y = case["y"]
     y_arg = None if y is None else (list(y) if case["yc"] == "list" else np.array(y))
+    if y is not None and isinstance(y_arg, np.ndarray) and y_arg.dtype.kind == "i" and n % 2 == 0:
+        y_arg = y_arg.astype(["int8", "int16", "int32"][n // 2 % 3])   # |y| <= 100: same values in a narrow integer dtype
+        ctx.cls("y-narrow-int")
     yv = list(range(n)) if y is None else list(y)
     if "left-out" in labs:
+        # no node <= query exists: the call must not return a value (any exception class); the other queries are then
+        # evaluated on their own
         ctx.cls("rejects")
         ctx.nt(True)
-        ctx.raises(AssertionError, eqsig.fns.interp_left, q_arg, x_arg, y_arg)
-        return
+        ctx.raises(Exception, eqsig.fns.interp_left, q_arg, x_arg, y_arg)
+        x0 = x0[x0 >= xf[0]]
+        if scalar or len(x0) == 0:
+            return
+        ctx.cls("rejects-then-rest")
+        q_arg = x0.tolist() if case["qc"] in ("list", "py") else (tuple(x0.tolist()) if case["qc"] == "tuple" else x0.copy())
     out = ctx.lib(eqsig.fns.interp_left, q_arg, x_arg, y_arg)
     if scalar:
         ctx.check(np.ndim(out) == 0, "scalar query returned a non-scalar %r" % (out,))
@@ -314,8 +352,6 @@ def interp_left(case, ctx):
         ctx.check(any(got[k] == yv[i] for i in allowed),
                   "interp_left(%r) over nodes %r: got %r, value at the greatest node <= query is %r (index %d)" % (
                       q, xf.tolist(), got[k], yv[j], j))
-    if not isinstance(x_arg, list):
-        ctx.equal(x_arg, xf, "node array mutated")
 
 
 # ---------------------------------------------------------------------------
@@ -339,7 +375,8 @@ def _roll_cases(draw):
         steps = draw(st.integers(1, min(n, 6)))
     else:
         steps = draw(st.integers(1, n).map(lambda k, n=n: n + 1 - k))  # shrinks towards len, not towards 1
-    return {"rec": spec, "steps": steps, "mode": draw(st.sampled_from(_MODES)), "defaults": draw(st.booleans())}
+    return {"rec": spec, "steps": steps, "mode": draw(st.sampled_from(_MODES)), "defaults": draw(st.booleans()),
+            "narrow": draw(st.sampled_from([None, None, None, None, None, "int16", "int32", "int8"]))}
 
 
 def _window_offsets(mode, steps):
@@ -359,13 +396,18 @@ def _window_offsets(mode, steps):
         rule="records of all kinds (n 1..1500, float / int / list), steps in {1, len, 1..6, U(1..len)}, the four mode strings; "
              "non-trivial = steps >= 2 and the record is not constant",
         oracle="reference model: loop over samples, long-double mean over the window with indices clamped to the ends "
-               "(edge replication); bound eps*sum|extended series| + 4 eps max|v|, 2 ulp on dyadic / integer data; length kept",
+               "(edge replication); bound eps*sum|extended series| + 4 eps max|v|, (steps+4) eps sum|window|/steps on dyadic / integer data; "
+               "length kept",
         require={"mode=forward": 0.08, "mode=backward": 0.08, "mode=centre": 0.08, "mode=center": 0.08,
-                 "steps=len": 0.1, "steps=1": 0.1, "even-steps": 0.15, "exact-dyadic": 0.1})
+                 "steps=len": 0.1, "steps=1": 0.1, "even-steps": 0.15, "exact-dyadic": 0.1, "narrow=int16": 0.03})
 def rolling_average(case, ctx):
     spec = case["rec"]
     arg = gen.as_container(spec, gen.build(spec))
     v = np.array(arg, dtype=float)  # what the library sees
+    if case.get("narrow"):
+        # raw counts in a narrow integer dtype using its full range (gen.narrow_int): the mean is over the exact values
+        arg, v = gen.narrow_int(gen.build(spec), case["narrow"])
+        ctx.cls("narrow=" + case["narrow"])
     n = len(v)
     steps = int(case["steps"])
     mode = case["mode"]
@@ -373,16 +415,16 @@ def rolling_average(case, ctx):
         raise HarnessError("rolling-average generator: steps %d outside 1..%d" % (steps, n))
     vmax = float(np.max(np.abs(v)))
     # exact: every partial sum is a small integer multiple of a power of two
-    exact = bool(spec["k"] == "dyadic" or spec.get("as") == "int")
+    exact = bool(spec["k"] == "dyadic" or spec.get("as") == "int" or case.get("narrow"))
     ctx.cls("kind=" + spec["k"], gen.size_class(n), "mode=" + mode, "steps=1" if steps == 1 else None,
             "steps=len" if steps == n else None, "even-steps" if steps % 2 == 0 else "odd-steps",
             "exact-dyadic" if exact else None, ("as=" + spec["as"]) if spec.get("as") else None)
     ctx.nt(steps >= 2 and bool(np.any(v != v[0])))
-    before = v.copy() if isinstance(arg, np.ndarray) else None
+    steps_arg = np.int64(steps) if (n + steps) % 4 == 0 else steps   # a NumPy integer is an int too
     if mode == "forward" and case.get("defaults"):
-        out = ctx.lib(eqsig.fns.calc_roll_av_vals, arg, steps)  # mode defaults to forward
+        out = ctx.lib(eqsig.fns.calc_roll_av_vals, arg, steps_arg)  # mode defaults to forward
     else:
-        out = ctx.lib(eqsig.fns.calc_roll_av_vals, arg, steps, mode=mode)
+        out = ctx.lib(eqsig.fns.calc_roll_av_vals, arg, steps_arg, mode=mode)
     out = np.asarray(out)
     ctx.shape(out, (n,), "rolling average (length kept)")
     vl = v.astype(LD)
@@ -392,12 +434,17 @@ def rolling_average(case, ctx):
         # direct windowed sums (not the library's cumulative-sum differencing): indices clamped = edge values replicated
         offs = np.arange(a, b + 1)
         wsum = np.zeros(n, dtype=LD)
+        wabs = np.zeros(n)
         for i in range(n):
-            wsum[i] = np.sum(vl[np.clip(i + offs, 0, n - 1)])
+            win = vl[np.clip(i + offs, 0, n - 1)]
+            wsum[i] = np.sum(win)
+            wabs[i] = float(np.sum(np.abs(win)))
         if exact:
-            # window sums are exact in double; the only rounding is the division (or a multiplication by 1/steps)
-            expect = np.asarray(wsum, dtype=float) / float(steps)
-            tol = 2 * EPS * np.abs(expect)
+            # every partial sum of the data is exact in double whatever the order, so a cumulative-sum differencing commits
+            # only the division; an implementation that multiplies by 1/steps before adding (np.convolve, a uniform filter)
+            # commits up to (steps+1)/2 roundings of eps*|x_j|/steps each: bound (steps+4)*eps*sum|window|/steps
+            expect = wsum / LD(steps)
+            tol = (steps + 4) * EPS * wabs / steps
         else:
             expect = wsum / LD(steps)
             tol = np.full(n, tol_abs)
@@ -410,8 +457,6 @@ def rolling_average(case, ctx):
     else:
         ctx.fail("calc_roll_av_vals(n=%d, steps=%d, mode=%r) is not the edge-replicated window mean: %s" % (
             n, steps, mode, "; ".join(msgs)))
-    if before is not None:
-        ctx.equal(arg, before, "input mutated")
 
 
 # ---------------------------------------------------------------------------
@@ -424,7 +469,7 @@ def _step_cases(draw):
     if src == "ints":
         lo, hi = draw(st.sampled_from([(0, 9), (1, 5), (-9, 0), (-9, 9), (-40, 40)]))
         vals = {"src": "ints", "v": draw(st.lists(st.integers(lo, hi), min_size=draw(st.sampled_from([1, 2, 3, 3, 5, 8, 12])), max_size=40)),
-                "as": draw(st.sampled_from(["list", "intarray", "floatarray", "floatlist"]))}
+                "as": draw(st.sampled_from(["list", "intarray", "floatarray", "floatlist", "int8", "int16", "int32"]))}
     else:
         min_n = draw(st.sampled_from([1, 2, 3, 3, 5, 8, 12]))
         if draw(st.integers(0, 19)) == 7:
@@ -450,6 +495,8 @@ def _step_values(vals):
             arg = list(ints)
         elif how == "intarray":
             arg = np.array(ints, dtype=np.int64)
+        elif how in ("int8", "int16", "int32"):
+            arg = np.array(ints, dtype=how)   # |values| <= 40: the same data in a narrow integer dtype
         elif how == "floatlist":
             arg = [float(i) for i in ints]
         else:
@@ -489,7 +536,7 @@ def _side_means(v):
     return out
 
 
-def _check_step_error(ctx, got, ref, tol, int_input, what):
+def _check_step_error(ctx, got, ref, tol, int_input, what, imax=None):
     got = np.asarray(got)
     ctx.shape(got, (len(ref),), what)
     d = np.abs(got.astype(LD) - ref)
@@ -504,6 +551,9 @@ def _check_step_error(ctx, got, ref, tol, int_input, what):
         lo = np.trunc(np.asarray(ref - tol, dtype=float))
         hi = np.trunc(np.asarray(ref + tol, dtype=float))
         ok = (got >= lo) & (got <= hi) & (got == np.trunc(got))
+        if imax is not None:
+            # the same finding with a NARROW integer input: the truncated error does not even fit the input's dtype
+            ok = ok | (hi > imax)
         ctx.check(bool(np.all(ok)), msg + " [not explained by integer truncation either]")
         return
     ctx.fail(msg)
@@ -535,19 +585,30 @@ def step_fit(case, ctx):
             "mixed-side-means" if (pos and neg) else None, "p1-neg-mean" if (neg and p == 1) else None,
             "src=" + case["vals"]["src"])
     ctx.nt(n >= 3 and bool(np.any(v != v[0])))
-    before = arg.copy() if isinstance(arg, np.ndarray) else list(arg)
 
     fn = eqsig.fns.calc_step_fn_vals_error
     ref = _ref_step_error(v, p)
     tol = 1e-10 * n * vmax ** p
+    imax = float(np.iinfo(np.array(arg).dtype).max) if int_input and np.array(arg).dtype.itemsize < 8 else None
+    if imax is not None:
+        ctx.cls("narrow-int-input")
+        if float(np.max(np.asarray(ref, dtype=float))) + tol + 1 > imax and ctx.kf(KF_INT):
+            # known finding C20-KF1 with a NARROW integer input: the result array has the input's dtype, so an error above the
+            # dtype's maximum wraps around or raises OverflowError (NumPy 2) - nothing can be asserted on this case
+            ctx.cls("narrow-int-error-overflow")
+            return
     if p == 1 and case.get("defaults"):
         plain = ctx.lib(fn, arg)  # pow defaults to 1
     else:
         plain = ctx.lib(fn, arg, pow=p)
-    _check_step_error(ctx, plain, ref, tol, int_input, "calc_step_fn_vals_error(pow=%d)" % p)
+    _check_step_error(ctx, plain, ref, tol, int_input, "calc_step_fn_vals_error(pow=%d)" % p, imax)
     plain = np.asarray(plain, dtype=float)
 
-    if direction is not None and n >= 1:
+    pen_overflows = imax is not None and 10.0 * float(np.max(np.asarray(ref, dtype=float))) + 1 > imax
+    if direction is not None and n >= 1 and pen_overflows and ctx.kf(KF_INT):
+        # known finding C20-KF1 with a narrow integer input: the penalty 10*max error does not fit the input's dtype either
+        ctx.cls("narrow-int-penalty-overflow")   # wraps around or raises OverflowError (NumPy 2): nothing to assert
+    elif direction is not None and n >= 1:
         got = np.asarray(ctx.lib(fn, arg, pow=p, dir=direction), dtype=float)
         ctx.shape(got, (n,), "calc_step_fn_vals_error(dir=%r)" % direction)
         pen = 10.0 * float(np.max(plain))
@@ -591,101 +652,261 @@ def step_fit(case, ctx):
         ctx.close(np.array([pre, post], dtype=float), np.array([means[0, ind], means[3, ind]]), tol_m,
                   "calc_step_fn_steps_vals(ind=%d) vs (mean(values[:ind]), mean(values[ind+1:]))" % ind)
     elif n >= 3:
-        ref1 = ref if p == 1 else _ref_step_error(v, 1)
-        tol1 = 1e-10 * n * vmax
-        lo1 = np.asarray(ref1 - tol1, dtype=float)
-        hi1 = np.asarray(ref1 + tol1, dtype=float)
-        idx = [int(i) for i in np.nonzero(lo1 <= np.min(hi1))[0]]   # splits whose error is minimal within tolerance
-        if any(i < 1 or i > n - 2 for i in idx):
-            ctx.cls("levels-argmin-at-end")
-        else:
-            ctx.cls("levels-argmin")
-            if len(idx) > 1:
-                ctx.amb()
-            pre, post = ctx.lib(lev, arg)
+        _check_argmin_levels(ctx, arg, v, means, int_input, {p: ref}, _ref_step_error, tol_m, imax)
 
-            def matches(ids):
-                return any(abs(pre - means[0, i]) <= tol_m and abs(post - means[3, i]) <= tol_m for i in ids)
-            ok = matches(idx)
-            if not ok and int_input and ctx.kf(KF_INT):
-                # known finding: the argmin is taken over the truncated error
-                idx_kf = [int(i) for i in np.nonzero(np.trunc(lo1) <= np.min(np.trunc(hi1)))[0]]
-                ok = any(i < 1 or i > n - 2 for i in idx_kf) or matches(idx_kf)
-            ctx.check(ok, "calc_step_fn_steps_vals(values) = %r, but the error is minimal at split(s) %r with levels %r" % (
-                (pre, post), idx, [(means[0, i], means[3, i]) for i in idx]))
-    if isinstance(arg, np.ndarray):
-        ctx.equal(arg, before, "input mutated")
+
+def _check_argmin_levels(ctx, arg, v, means, int_input, refs, ref_fn, tol_m, imax=None):
+    """calc_step_fn_steps_vals(values) with ind=None: the levels of a split of minimal error.  The statement does not say which
+    power selects the split: the minimisers (within tolerance) of the pow=1 and of the pow=2 reference error are all accepted."""
+    n = len(v)
+    vmax = float(np.max(np.abs(v)))
+    lev = eqsig.fns.calc_step_fn_steps_vals
+    idx, lohi = [], {}
+    for q in (1, 2):
+        r = refs[q] if q in refs else ref_fn(v, q)
+        tq = 1e-10 * n * vmax ** q
+        lo, hi = np.asarray(r - tq, dtype=float), np.asarray(r + tq, dtype=float)
+        lohi[q] = (lo, hi)
+        idx += [int(i) for i in np.nonzero(lo <= np.min(hi))[0]]   # splits whose error is minimal within tolerance
+    idx = sorted(set(idx))
+
+    def same(a, b):
+        return (math.isnan(a) and math.isnan(b)) or abs(a - b) <= tol_m
+
+    def matches(ids, pre, post):
+        # means[0, 0] and means[3, n-1] are nan (empty side)
+        return any(same(pre, means[0, i]) and same(post, means[3, i]) for i in ids)
+
+    at_end = any(i < 1 or i > n - 2 for i in idx)
+    ctx.cls("levels-argmin-at-end" if at_end else "levels-argmin")
+    if len(idx) > 1:
+        ctx.amb()
+    if at_end:
+        # a side of a minimal split is empty: the statement says nothing about that side - an exception is acceptable
+        try:
+            with np.errstate(all="ignore"):
+                import warnings
+                with warnings.catch_warnings():
+                    warnings.simplefilter("ignore")
+                    pre, post = lev(arg)
+        except Exception:  # noqa
+            return
     else:
-        ctx.check(arg == before, "input list mutated")
+        pre, post = ctx.lib(lev, arg)
+    pre, post = float(pre), float(post)
+    ok = matches(idx, pre, post)
+    if not ok and int_input and ctx.kf(KF_INT):
+        # known finding C20-KF1 (recorded bound): with integer input the split is a minimiser of the TRUNCATED pow=1 error;
+        # exactly the levels of such a split are accepted (nan for an empty side), nothing else
+        lo1, hi1 = lohi[1]
+        idx_kf = [int(i) for i in np.nonzero(np.trunc(lo1) <= np.min(np.trunc(hi1)))[0]]
+        ok = matches(idx_kf, pre, post) or (imax is not None and float(np.max(hi1)) > imax)   # overflowed entries: unpredictable
+    ctx.check(ok, "calc_step_fn_steps_vals(values) = %r, but the error is minimal at split(s) %r with levels %r" % (
+        (pre, post), idx[:6], [(means[0, i], means[3, i]) for i in idx[:6]]))
 
 
 # long series: the library builds n x n work arrays, so lengths of several thousand samples are a different regime
 
 
-def _ref_step_error_blocked(v, p, rows=128):
-    """Same definition as _ref_step_error, evaluated in long double in blocks of `rows` splits (vectorised over samples)."""
+def _hu(*parts):
+    """Uniform number in [0, 1): hash of (VERIF_SEED, parts)."""
+    t = ":".join(str(x) for x in (gen.run_seed(), "c20") + parts)
+    return (int(hashlib.blake2b(t.encode(), digest_size=8).hexdigest(), 16) % 10 ** 9) / 1e9
+
+
+def _hpick(seq, *parts):
+    return seq[min(len(seq) - 1, int(_hu(*parts) * len(seq)))]
+
+
+def _hint(lo, hi, *parts):
+    """Log-uniform integer in [lo, hi]."""
+    return int(min(hi, max(lo, math.exp(math.log(lo) + (math.log(hi + 1) - math.log(lo)) * _hu(*parts)))))
+
+
+def _sd(*parts):
+    return int(_hu("seed", *parts) * (2 ** 31 - 1))
+
+
+def _deal(cases, shard, nshards):
+    """Deal the cases to the shards by cost (largest first, always to the least loaded shard): deterministic."""
+    order = sorted(range(len(cases)), key=lambda i: (-cases[i].get("cost", 1.0), i))
+    load = [0.0] * nshards
+    mine = []
+    for i in order:
+        k = min(range(nshards), key=lambda j: (load[j], j))
+        load[k] += cases[i].get("cost", 1.0)
+        if k == shard:
+            mine.append(i)
+    return [cases[i] for i in sorted(mine)]
+
+
+def _seam_indices(n, count, *tag):
+    """Indices of a long output for expensive per-entry checks: first, last, -1 | 0 | +1 modulo 2^k (k = 5..12: the first member
+    and a hash-chosen member of every such class) and hash-chosen others, about `count` in all."""
+    idx = {0, 1, n // 2, n - 2, n - 1}
+    for k in range(5, 13):
+        b = 2 ** k
+        for r in (b - 1, b, b + 1):
+            members = list(range(r, n, b))
+            if members:
+                idx.add(members[0])
+                idx.add(_hpick(members, "seam", k, r, n, *tag))
+    j = 0
+    while len(idx) < min(n, count):
+        idx.add(int(_hu("idx", j, n, *tag) * n))
+        j += 1
+    return np.array(sorted(i for i in idx if 0 <= i < n), dtype=np.int64)
+
+
+def _ref_step_error_fast(v, p):
+    """The definition of the step error for long series.  pow=2: sum (x-mean)^2 = sum x^2 - (sum x)^2/k from long-double prefix
+    sums (cancellation costs ~1e-19*n*max|v|^2, nine orders below the tolerance).  pow=1: the deviations from the long-double side
+    means, summed in double precision in blocks of splits (error <= n*eps*max|v| per entry)."""
     n = len(v)
     vl = v.astype(LD)
-    csum = np.cumsum(vl)
-    tot = csum[-1]
+    c1 = np.cumsum(vl)
+    t1 = c1[-1]
+    k_pre = np.arange(1, n + 1).astype(LD)
+    k_post = np.arange(n - 1, -1, -1).astype(LD)
+    m_pre = c1 / k_pre
+    m_post = np.where(k_post > 0, (t1 - c1) / np.maximum(k_post, 1), LD(0))
+    if p == 2:
+        c2 = np.cumsum(vl * vl)
+        t2 = c2[-1]
+        pre = c2 - c1 * c1 / k_pre
+        post = np.where(k_post > 0, (t2 - c2) - (t1 - c1) * (t1 - c1) / np.maximum(k_post, 1), LD(0))
+        return np.maximum(pre, 0) + np.maximum(post, 0)
+    mp = np.asarray(m_pre, dtype=float)
+    mq = np.asarray(m_post, dtype=float)
+    err = np.zeros(n)
     j = np.arange(n)
-    err = np.zeros(n, dtype=LD)
+    rows = max(1, int(4e6 // n))
     for i0 in range(0, n, rows):
         i = np.arange(i0, min(n, i0 + rows))
-        m_pre = csum[i] / (i + 1).astype(LD)
-        n_post = (n - 1 - i)
-        m_post = np.where(n_post > 0, (tot - csum[i]) / np.maximum(n_post, 1).astype(LD), LD(0))
-        pre = j[None, :] <= i[:, None]
-        dev = np.abs(vl[None, :] - np.where(pre, m_pre[:, None], m_post[:, None]))
-        err[i] = np.sum(dev if p == 1 else dev * dev, axis=1)
-    return err
+        is_pre = j[None, :] <= i[:, None]
+        err[i] = np.sum(np.abs(v[None, :] - np.where(is_pre, mp[i][:, None], mq[i][:, None])), axis=1)
+    return err.astype(LD)
 
 
-def _validate_blocked_reference():
+def _validate_fast_reference():
     v = np.sin(np.arange(41.0) * 1.3) + np.where(np.arange(41) > 17, 2.0, -1.0)
     for p in (1, 2):
-        a, b = _ref_step_error(v, p), _ref_step_error_blocked(v, p, rows=7)
-        if not np.all(np.abs(a - b) <= 1e-15 * np.max(np.abs(a))):
-            raise HarnessError("C20: blocked step-error reference disagrees with the loop reference")
+        a, b = _ref_step_error(v, p), _ref_step_error_fast(v, p)
+        if not np.all(np.abs(a - b) <= 1e-13 * np.max(np.abs(a))):
+            raise HarnessError("C20: fast step-error reference disagrees with the loop reference (pow=%d)" % p)
 
 
-_validate_blocked_reference()
+_validate_fast_reference()
+
+
+def _step_series(c):
+    """Series of a long step-fit case: one or two level changes + noise (+ optional offset, sign flip); distinct values everywhere."""
+    n = int(c["n"])
+    rs = np.random.RandomState(int(c["seed"]))
+    t = np.arange(n)
+    v = np.where(t <= int(c["at"]), 2.0, -1.5) + 0.3 * rs.standard_normal(n)
+    if c.get("at2") is not None:
+        v = v + np.where(t > int(c["at2"]), 0.9, 0.0)
+    v = v + float(c.get("shift", 0.0))
+    if c.get("flip"):
+        v = -v
+    return v
 
 
 def _long_step_cases(tier, shard, nshards):
-    items = [(2 ** 13 + 2, 1, 3000)]
-    if tier != "quick":
-        items += [(2 ** 13 + 2, 2, 5000), (2 ** 13 - 1, 1, 100), (9001, 1, 8500), (10007, 2, 4000), (2 ** 12 + 1, 1, 4000)]
-    for k, (n, p, at) in enumerate(items):
-        if k % nshards == shard:
-            yield {"n": n, "pow": p, "at": at, "seed": 5 + k}
+    quick = tier == "quick"
+    sizes = sorted(set(gen.size_ladder(151, 6500 if quick else 10500, 9 if quick else 22, "c20:step")) | {2 ** 13 + 2})
+    cases = []
+    for i, n in enumerate(sizes):
+        # both powers on the cheap lengths, one (hash-chosen) above 3000 samples; `dir` on about half of the cases
+        pows = [1, 2] if n <= 3000 or not quick else [_hpick([1, 2], "step", "p", i)]
+        for p in pows:
+            cases.append({"n": int(n), "pow": p, "at": _hint(max(2, n // 50), n - 3, "step", "at", i, p),
+                          "at2": _hint(2, n - 3, "step", "at2", i, p) if _hu("step", "two", i, p) < 0.4 else None,
+                          "seed": _sd("step", i, p), "shift": _hpick([0.0, 0.0, 5.0, -5.0, 40.0], "step", "sh", i, p),
+                          "flip": _hu("step", "flip", i, p) < 0.5,
+                          "dir": _hpick([None, "up", "down"], "step", "dir", i, p) if n <= 5000 else None,
+                          "as": _hpick(["array", "array", "list"], "step", "as", i, p) if n <= 3000 else "array",
+                          "levels": n <= 5000 or not quick, "cost": float(n) ** 2.3})
+    return _deal(cases, shard, nshards)
 
 
 @enum_clause(CLAUSES, "step-fit-long", _long_step_cases,
-             rule="fixed long series (4097..10007 samples: a level change of 3.5 at a chosen sample + noise 0.3), pow 1 and 2",
-             oracle="reference model: the definition evaluated in long double in blocks of splits (validated at import against the loop "
-                    "reference), tolerance 1e-10*n*max|v|^p; levels = means before / after the split of minimal pow-1 error",
-             exhaustive_note="the listed (length, power, step position) triples", quick_shards=1)
+             rule="mid-range lengths 151 .. 6500 (thorough 10500; gen.size_ladder: one per logarithmic bin placed by a hash of VERIF_SEED "
+                  "+ lengths around the integer literals of the source under test) and 2^13+2: one or two level changes at hash-chosen "
+                  "samples + noise 0.3, offsets {0, +-5, 40}, sign flips; pow 1 and 2; dir in {None, up, down}; ndarray / list",
+             oracle="reference model over ALL entries: pow=2 from long-double prefix sums, pow=1 deviations from long-double side means "
+                    "summed per split (both validated at import against the loop reference), tolerance 1e-10*n*max|v|^p; dir entries "
+                    "= plain error or 10*max, decided where every reading of the step direction agrees; levels = means before / after "
+                    "a split of minimal error",
+             exhaustive_note="the laddered lengths x powers", quick_shards=4)
 def step_fit_long(case, ctx):
-    n, p, at = int(case["n"]), int(case["pow"]), int(case["at"])
-    v = np.where(np.arange(n) <= at, 2.0, -1.5) + 0.3 * np.random.RandomState(case["seed"]).standard_normal(n)
+    n, p = int(case["n"]), int(case["pow"])
+    v = _step_series(case)
+    arg = [float(x) for x in v] if case.get("as") == "list" else v.copy()
     ctx.nt(True)
-    ctx.cls("p=%d" % p)
+    ctx.cls("p=%d" % p, "dir=%s" % case.get("dir"), "n>4096" if n > 4096 else ("n>1400" if n > 1400 else "n<=1400"))
     vmax = float(np.max(np.abs(v)))
-    before = v.copy()
-    got = ctx.lib(eqsig.fns.calc_step_fn_vals_error, v, pow=p)
-    ref = _ref_step_error_blocked(v, p)
-    _check_step_error(ctx, got, ref, 1e-10 * n * vmax ** p, False, "calc_step_fn_vals_error(pow=%d, n=%d)" % (p, n))
-    ref1 = ref if p == 1 else _ref_step_error_blocked(v, 1)
-    tol1 = 1e-10 * n * vmax
-    idx = [int(i) for i in np.nonzero(np.asarray(ref1 - tol1, dtype=float) <= float(np.min(ref1) + tol1))[0]]
-    if all(1 <= i <= n - 2 for i in idx):
-        pre, post = ctx.lib(eqsig.fns.calc_step_fn_steps_vals, v)
-        tol_m = (n + 4) * EPS * vmax
-        vl = v.astype(LD)
-        ctx.check(any(abs(pre - float(np.mean(vl[:i]))) <= tol_m and abs(post - float(np.mean(vl[i + 1:]))) <= tol_m for i in idx),
-                  "calc_step_fn_steps_vals(values) = %r, but the error is minimal at split(s) %r (n=%d)" % ((pre, post), idx, n))
-    ctx.equal(v, before, "input mutated")
+    tol = 1e-10 * n * vmax ** p
+    got = ctx.lib(eqsig.fns.calc_step_fn_vals_error, arg, pow=p)
+    ref = _ref_step_error_fast(v, p)
+    _check_step_error(ctx, got, ref, tol, False, "calc_step_fn_vals_error(pow=%d, n=%d)" % (p, n))
+    plain = np.asarray(got, dtype=float)
+    direction = case.get("dir")
+    if direction is not None:
+        gd = np.asarray(ctx.lib(eqsig.fns.calc_step_fn_vals_error, arg, pow=p, dir=direction), dtype=float)
+        ctx.shape(gd, (n,), "calc_step_fn_vals_error(dir=%r)" % direction)
+        _check_dir(ctx, gd, plain, v, direction, tol, vmax)
+    if case.get("levels"):
+        c1 = np.cumsum(v.astype(LD))
+        means = np.full((4, n), np.nan)
+        kk = np.arange(n)
+        means[0, 1:] = np.asarray(c1[:-1] / kk[1:].astype(LD), dtype=float)                      # mean(v[:i])
+        means[3, :-1] = np.asarray((c1[-1] - c1[:-1]) / (n - 1 - kk[:-1]).astype(LD), dtype=float)  # mean(v[i+1:])
+        _check_argmin_levels(ctx, arg, v, means, False, {p: ref}, _ref_step_error_fast, (n + 4) * EPS * vmax)
+
+
+def _check_dir(ctx, got, plain, v, direction, tol, vmax):
+    """Vectorised form of the `dir` check of step-fit for long series (same rule, see ASSUMPTIONS)."""
+    n = len(v)
+    pen = 10.0 * float(np.max(plain))
+    tol_d = 10 * tol + 8 * EPS * abs(pen)
+    is_plain = np.abs(got - plain) <= tol
+    is_pen = np.abs(got - pen) <= tol_d
+    bad = ~(is_plain | is_pen)
+    if np.any(bad):
+        i = int(np.argmax(bad))
+        ctx.fail("dir=%r (n=%d): entry %d is %r, neither the plain error %r nor 10*max error %r" % (direction, n, i, got[i], plain[i], pen))
+    c1 = np.cumsum(v.astype(LD))
+    kk = np.arange(n)
+    m_incl = np.asarray(c1 / (kk + 1).astype(LD), dtype=float)                                   # mean(v[:i+1])
+    m_excl = np.full(n, np.nan)
+    m_excl[1:] = m_incl[:-1]                                                                      # mean(v[:i])
+    p_excl = np.full(n, np.nan)
+    p_excl[:-1] = np.asarray((c1[-1] - c1[:-1]) / (n - 1 - kk[:-1]).astype(LD), dtype=float)      # mean(v[i+1:])
+    p_incl = np.asarray((c1[-1] - np.concatenate([[LD(0)], c1[:-1]])) / (n - kk).astype(LD), dtype=float)  # mean(v[i:])
+    gap = 1e-9 * vmax
+    i = np.arange(n - 1)
+    pres = [m_incl[i], np.where(i >= 1, m_excl[i], m_incl[i])]
+    posts = [p_excl[i], p_incl[i]]
+    up = np.ones(n - 1, dtype=bool)
+    down = np.ones(n - 1, dtype=bool)
+    close = np.zeros(n - 1, dtype=bool)
+    for a in pres:
+        for b in posts:
+            up &= a < b
+            down &= a > b
+            close |= np.abs(a - b) <= gap
+    decided = (up | down) & ~close & ~(np.abs(pen - plain[:-1]) <= tol + tol_d)
+    unwanted = up if direction == "down" else down
+    wrong = decided & np.where(unwanted, ~is_pen[:-1], ~is_plain[:-1])
+    if np.any(decided):
+        ctx.cls("dir-decided")
+    if np.any(wrong):
+        j = int(np.argmax(wrong))
+        ctx.fail("dir=%r (n=%d): split %d steps from %r to %r (the %s way) but is %s: %r (plain %r)" % (
+            direction, n, j, m_incl[j], p_excl[j], "unwanted" if unwanted[j] else "wanted",
+            "not penalised" if unwanted[j] else "penalised", got[j], plain[j]))
 
 
 # ---------------------------------------------------------------------------
@@ -694,7 +915,7 @@ def step_fit_long(case, ctx):
 G = 9.81
 BOUNDS = {"C": [0.1, 0.3, 1.5, 3.0], "D": [0.1, 0.56, 1.5, 3.0], "E": [0.1, 1.0, 1.5, 3.0]}  # NZS 1170.5 table 3.1 segments
 PLATEAU_END = {"C": 0.3, "D": 0.56, "E": 1.0}
-TABLE_PRECISION = 0.01
+TABLE_PRECISION = 0.005   # three significant figures of the tabulated coefficients (largest tabulated jump: 0.40 %)
 BAD_CLASSES = ["A", "B", "F", "c", "d", "", "CD", "Class C"]
 _ALL_B = sorted(set(b for bs in BOUNDS.values() for b in bs))
 
@@ -703,13 +924,14 @@ def _periods():
     near = st.tuples(st.sampled_from(_ALL_B), st.sampled_from([1 - 1e-9, 1 - 2.0 ** -52, 1.0, 1 + 2.0 ** -52, 1 + 1e-9])).map(
         lambda t: t[0] * t[1])
     return st.one_of(gen.log_uniform(0.02, 6.0), gen.log_uniform(0.02, 6.0), gen.log_uniform(1e-9, 1e4), near,
+                     st.integers(0, 12).map(float),
                      st.floats(0.0, 4.0, allow_nan=False), st.floats(0.0, 4.0, allow_nan=False).map(lambda t: 4.0 - t),
                      st.just(0.0))
 
 
 @st.composite
 def _nzs_cases(draw):
-    kind = draw(st.sampled_from(["identity", "boundary", "monotone", "teff", "reject", "array", "identity", "boundary", "monotone"]))
+    kind = draw(st.sampled_from(["identity", "boundary", "pair", "teff", "reject", "array", "identity", "boundary", "pair"]))
     case = {"kind": kind, "cls": draw(st.sampled_from(["C", "D", "E"])),
             "Z": draw(gen.log_uniform(0.01, 10.0)), "N": draw(gen.log_uniform(0.01, 10.0)),
             "R": draw(gen.log_uniform(0.01, 10.0))}
@@ -719,9 +941,9 @@ def _nzs_cases(draw):
         case["T"] = draw(_periods())
     elif kind == "boundary":
         case["delta"] = draw(st.sampled_from([1e-9, 1e-9, 1e-10, 1e-12]))  # relative offset of the one-sided evaluations
-    elif kind == "monotone":
-        case["T"] = draw(st.one_of(_periods(), gen.log_uniform(0.25, 8.0)))
-        case["T2"] = draw(st.one_of(_periods(), gen.log_uniform(1e-15, 10.0).map(lambda d, t=case["T"]: t * (1.0 + d))))
+    elif kind == "pair":
+        case["T"] = draw(st.one_of(_periods(), gen.log_uniform(0.25, 8.0)).filter(lambda t: t > 0))
+        case["d"] = draw(gen.log_uniform(1e-15, 1e-3))
     elif kind == "teff":
         case["frac"] = draw(st.one_of(st.just(0.0), st.floats(0.0, 1.0, allow_nan=False), st.just(1 - 1e-9), gen.log_uniform(1e-9, 1.0)))
         case["alpha"] = draw(st.floats(0.0, 1.0, allow_nan=False))
@@ -749,15 +971,21 @@ sd_nzs = _quiet(ds.sd_nzs)
 t_eff = _quiet(ds.t_eff)
 
 
+def _raises_any(ctx, fn, *args):
+    """The statement promises no value here; which exception class is raised is an implementation detail."""
+    ctx.raises(Exception, fn, *args)
+
+
 @clause(CLAUSES, "nzs1170", _nzs_cases(), quick=800, thorough=5000,
         rule="site classes C, D, E; Z, N, R log-uniform [0.01,10] or code-typical triples; T from {0, log-uniform [1e-9,1e4], "
              "U[0,4], tabulated boundaries x {1-1e-9, 1-ulp, 1, 1+ulp, 1+1e-9}}; sub-checks identity / boundary limits / "
-             "monotonicity / t_eff / rejection / array form; non-trivial = every case (each evaluates the tables)",
-        oracle="metamorphic: sd_nzs == c_h_factor*T^2*Z*N*R (1e-12; 1 % exactly on a boundary); one-sided limits at T_b(1+-1e-9) "
-               "within 1 %; C_h non-increasing beyond the plateau and S_d non-decreasing (exact within a segment, 1 % across); "
-               "t_eff(d) = 3 d / (sd_nzs(3)*g/(2 pi)^2), linear, ValueError above d_c, for T<0 and unknown classes; array == scalars",
-        require={"kind=identity": 0.1, "kind=boundary": 0.05, "kind=monotone": 0.05, "kind=teff": 0.03, "kind=reject": 0.03,
-                 "kind=array": 0.03, "T=0": 0.02, "T>=3": 0.04, "near-boundary": 0.03, "beyond-plateau": 0.02})
+             "close pairs / t_eff / rejection / array form; non-trivial = every case (each evaluates the tables)",
+        oracle="metamorphic: sd_nzs == c_h_factor*T^2*Z*N*R (1e-12, also exactly on a boundary); one-sided limits at T_b(1+-1e-9) "
+               "within table precision 0.5 %; periods a factor 1+d apart (d <= 1e-3) differ by <= 2.05d (3.05d for S_d) + 0.5 % if "
+               "a tabulated boundary lies between; t_eff(d) = 3 d / (sd_nzs(3)*g/(2 pi)^2), linear, some exception above d_c, for "
+               "T<0 and unknown classes; array == scalars (4 eps)",
+        require={"kind=identity": 0.1, "kind=boundary": 0.05, "kind=pair": 0.05, "kind=teff": 0.03, "kind=reject": 0.03,
+                 "kind=array": 0.03, "T=0": 0.02, "T>=3": 0.04, "near-boundary": 0.03})
 def nzs1170(case, ctx):
     cls, Z, N, R = case["cls"], case["Z"], case["N"], case["R"]
     kind = case["kind"]
@@ -769,12 +997,15 @@ def nzs1170(case, ctx):
         ctx.cls("T=0" if T == 0 else None, "T>=3" if T >= 3 else None, "T<0.1" if 0 < T < 0.1 else None,
                 "near-boundary" if any(abs(T - b) <= 2e-9 * b for b in BOUNDS[cls]) else None)
 
+    def scalar(x, what):
+        ctx.check(np.size(x) == 1, "%s is not a single value: %r" % (what, x))
+        return float(np.asarray(x).reshape(-1)[0])
+
     if kind == "identity":
         T = case["T"]
         tcls(T)
-        sd = ctx.lib(sd_nzs, T, cls, *zrn)
-        ch = ctx.lib(c_h, T, cls)
-        ctx.check(np.ndim(ch) == 0, "c_h_factor(float) returned a non-scalar: %r" % (ch,))
+        sd = scalar(ctx.lib(sd_nzs, T, cls, *zrn), "sd_nzs(float)")
+        ch = scalar(ctx.lib(c_h, T, cls), "c_h_factor(float)")
         expect = LD(ch) * LD(T) * LD(T) * LD(Z) * LD(N) * LD(R)
         # the statement's identity S_d = C_h(T)*T^2*Z*N*R is universally quantified over T >= 0: it is asserted exactly at the
         # tabulated boundaries as well (both functions must put a boundary on the same side)
@@ -784,8 +1015,28 @@ def nzs1170(case, ctx):
         ctx.close(sd, expect, rel * abs(float(expect)), "sd_nzs(T=%r, %s) vs c_h_factor*T^2*Z*N*R" % (T, cls))
         ctx.check(ch > 0 and np.isfinite(ch), "c_h_factor(%r, %s) = %r is not a positive finite number" % (T, cls, ch))
         # np.float64 scalar is a float too
-        ch2 = ctx.lib(c_h, np.float64(T), cls)
-        ctx.check(ch2 == ch, "c_h_factor(np.float64(T)) %r != c_h_factor(float T) %r" % (ch2, ch))
+        ch2 = scalar(ctx.lib(c_h, np.float64(T), cls), "c_h_factor(np.float64)")
+        ctx.check(abs(ch2 - ch) <= 4 * EPS * abs(ch), "c_h_factor(np.float64(T)) %r != c_h_factor(float T) %r" % (ch2, ch))
+        if cls == "C" and int(1e6 * Z) % 2 == 0:
+            # documented default of c_h_factor: site_class="C"
+            ctx.cls("default-class")
+            ch3 = scalar(ctx.lib(c_h, T), "c_h_factor(T) with the default class")
+            ctx.check(abs(ch3 - ch) <= 4 * EPS * abs(ch), "c_h_factor(T) with the default site class %r != c_h_factor(T, 'C') %r" % (ch3, ch))
+        # every scalar type is a period (fixed findings C20-F2): python int, numpy integers, and np.float32 - a float32
+        # PARAMETER means its exact double value
+        if T == int(T) and T < 1e6:
+            ctx.cls("T=whole")
+            for Ti in (int(T), np.int64(int(T)), np.int16(int(T)) if T < 3e4 else int(T)):
+                chi = scalar(ctx.lib(c_h, Ti, cls), "c_h_factor(%s)" % type(Ti).__name__)
+                ctx.check(abs(chi - ch) <= 4 * EPS * abs(ch), "c_h_factor(%s %r) %r != c_h_factor(float) %r" % (type(Ti).__name__, Ti, chi, ch))
+                sdi = scalar(ctx.lib(sd_nzs, Ti, cls, *zrn), "sd_nzs(%s)" % type(Ti).__name__)
+                ctx.check(abs(sdi - sd) <= 4 * EPS * abs(sd), "sd_nzs(%s %r) %r != sd_nzs(float) %r" % (type(Ti).__name__, Ti, sdi, sd))
+        T32 = np.float32(T)
+        if np.isfinite(T32):
+            want32 = scalar(ctx.lib(c_h, float(T32), cls), "c_h_factor(float)")
+            got32 = scalar(ctx.lib(c_h, T32, cls), "c_h_factor(np.float32)")
+            ctx.check(abs(got32 - want32) <= 4 * EPS * abs(want32),
+                      "c_h_factor(np.float32(%r)) = %r, but at its exact double value %r the factor is %r" % (T, got32, float(T32), want32))
     elif kind == "boundary":
         delta = case.get("delta", 1e-9)
         for b in [0.0] + BOUNDS[cls]:   # 0 = limit T -> 0+, then the tabulated segment boundaries of the class
@@ -793,79 +1044,86 @@ def nzs1170(case, ctx):
                 lo_T, hi_T = 0.0, delta
             else:
                 lo_T, hi_T = b * (1 - delta), b * (1 + delta)
-            fns_ = [("c_h_factor", lambda T: ctx.lib(c_h, T, cls))]
+            fns_ = [("c_h_factor", lambda T: scalar(ctx.lib(c_h, T, cls), "c_h_factor"))]
             if b > 0:
-                fns_.append(("sd_nzs", lambda T: ctx.lib(sd_nzs, T, cls, *zrn)))
+                fns_.append(("sd_nzs", lambda T: scalar(ctx.lib(sd_nzs, T, cls, *zrn), "sd_nzs")))
             else:
                 # S_d -> 0 like T^2: a relative comparison is meaningless there; S_d(0) is exactly 0
                 ctx.check(ctx.lib(sd_nzs, 0.0, cls, *zrn) == 0, "sd_nzs(0) is not 0")
             if b > 0:
                 # the identity also holds exactly ON the boundary (both functions put it on the same side)
-                exp_b = LD(ctx.lib(c_h, b, cls)) * LD(b) * LD(b) * LD(Z) * LD(N) * LD(R)
-                ctx.close(ctx.lib(sd_nzs, b, cls, *zrn), exp_b, 1e-12 * abs(float(exp_b)),
+                exp_b = LD(scalar(ctx.lib(c_h, b, cls), "c_h_factor")) * LD(b) * LD(b) * LD(Z) * LD(N) * LD(R)
+                ctx.close(scalar(ctx.lib(sd_nzs, b, cls, *zrn), "sd_nzs"), exp_b, 1e-12 * abs(float(exp_b)),
                           "sd_nzs(T=%r, %s) vs c_h_factor*T^2*Z*N*R exactly on a tabulated boundary" % (b, cls))
             for name, f in fns_:
                 lo, at, hi = f(lo_T), f(b), f(hi_T)
                 big = max(abs(lo), abs(hi))
                 ctx.check(abs(hi - lo) <= TABLE_PRECISION * big,
-                          "%s (%s) jumps across T=%g: %r below, %r above (> 1 %%)" % (name, cls, b, lo, hi))
+                          "%s (%s) jumps across T=%g: %r below, %r above (> 0.5 %%: more than table precision)" % (name, cls, b, lo, hi))
                 ctx.check(min(lo, hi) - TABLE_PRECISION * big <= at <= max(lo, hi) + TABLE_PRECISION * big,
                           "%s (%s) at T=%g is %r, outside its one-sided limits %r, %r" % (name, cls, b, at, lo, hi))
-    elif kind == "monotone":
-        T1, T2 = sorted([case["T"], case["T2"]])
+    elif kind == "pair":
+        # continuity (nothing about monotonicity is claimed): two periods a factor 1+d apart.  On a tabulated segment
+        # |dlnC_h/dlnT| <= 2 and |dlnS_d/dlnT| <= 3; across a tabulated boundary the table-precision jump is added
+        T1 = case["T"]
+        d = case["d"]
+        T2 = T1 * (1.0 + d)
         tcls(T1)
         tcls(T2)
         if T1 == T2:
             ctx.cls("T1=T2")
             return
-        slack = TABLE_PRECISION if _crosses(T1, T2, cls) else 16 * EPS
-        ctx.cls("crosses-boundary" if _crosses(T1, T2, cls) else "same-segment")
-        s1 = ctx.lib(sd_nzs, T1, cls, *zrn)
-        s2 = ctx.lib(sd_nzs, T2, cls, *zrn)
-        ctx.check(s2 >= s1 * (1 - slack), "sd_nzs (%s) decreases from T=%r (%r) to T=%r (%r)" % (cls, T1, s1, T2, s2))
-        if T1 >= PLATEAU_END[cls]:
-            ctx.cls("beyond-plateau")
-            c1 = ctx.lib(c_h, T1, cls)
-            c2 = ctx.lib(c_h, T2, cls)
-            ctx.check(c2 <= c1 * (1 + slack), "c_h_factor (%s) increases beyond the plateau: T=%r -> %r, T=%r -> %r" % (
-                cls, T1, c1, T2, c2))
+        jump = TABLE_PRECISION if _crosses(T1, T2, cls) else 0.0
+        ctx.cls("crosses-boundary" if jump else "same-segment")
+        for name, f, slope in (("c_h_factor", lambda T: scalar(ctx.lib(c_h, T, cls), "c_h_factor"), 2.05),
+                               ("sd_nzs", lambda T: scalar(ctx.lib(sd_nzs, T, cls, *zrn), "sd_nzs"), 3.05)):
+            y1, y2 = f(T1), f(T2)
+            big = max(abs(y1), abs(y2))
+            if big == 0:
+                continue   # S_d of a period whose square underflows: nothing to compare
+            ctx.check(abs(y2 - y1) <= (slope * d + jump + 16 * EPS) * big + 1e-300,
+                      "%s (%s) changes by %.3g %% between T=%r and T=%r (a factor 1+%.3g apart): %r -> %r" % (
+                          name, cls, 100 * abs(y2 - y1) / big, T1, T2, d, y1, y2))
     elif kind == "teff":
-        d_c = float(ctx.lib(sd_nzs, 3.0, cls, *zrn)) * G / (2 * math.pi) ** 2
+        d_c = scalar(ctx.lib(sd_nzs, 3.0, cls, *zrn), "sd_nzs") * G / (2 * math.pi) ** 2
         frac = min(case["frac"], 1 - 1e-9)
         d = frac * d_c
-        t = ctx.lib(t_eff, d, cls, *zrn)
+        t = scalar(ctx.lib(t_eff, d, cls, *zrn), "t_eff")
         ctx.close(t, 3.0 * LD(d) / LD(d_c), 3e-12, "t_eff(%r) vs 3*d/d_c, d_c=%r (%s)" % (d, d_c, cls))
         al = case["alpha"]
-        t2 = ctx.lib(t_eff, al * d, cls, *zrn)
+        t2 = scalar(ctx.lib(t_eff, al * d, cls, *zrn), "t_eff")
         ctx.close(t2, LD(al * d) / LD(d) * LD(t) if d > 0 else 0.0, 3e-12, "t_eff linearity: t_eff(alpha*d) vs alpha*t_eff(d)")
-        ctx.raises(ValueError, t_eff, d_c * case["over"], cls, *zrn)
+        _raises_any(ctx, t_eff, d_c * case["over"], cls, *zrn)
         ctx.cls("frac=0" if frac == 0 else None)
         # corner: the largest admissible displacement maps to (just under) the corner period 3 s
-        t3 = ctx.lib(t_eff, d_c * (1 - 1e-9), cls, *zrn)
+        t3 = scalar(ctx.lib(t_eff, d_c * (1 - 1e-9), cls, *zrn), "t_eff")
         ctx.check(abs(t3 - 3.0) <= 1e-8, "t_eff just below the corner displacement is %r, expected 3 s" % (t3,))
     elif kind == "reject":
         T = case["T"]
-        ctx.raises(ValueError, c_h, -T, cls)
-        ctx.raises(ValueError, sd_nzs, -T, cls, *zrn)
-        ctx.raises(ValueError, c_h, np.array([T, -T, 1.0]), cls)
-        ctx.raises(ValueError, c_h, [T, 1.0, -T], cls)
-        ctx.raises(ValueError, c_h, T, case["bad"])
-        ctx.raises(ValueError, c_h, np.array([T, 2 * T]), case["bad"])
-        ctx.raises(ValueError, sd_nzs, T, case["bad"], *zrn)
-        ctx.raises(ValueError, t_eff, 0.0, case["bad"], *zrn)
-        d_c = float(ctx.lib(sd_nzs, 3.0, cls, *zrn)) * G / (2 * math.pi) ** 2
-        ctx.raises(ValueError, t_eff, d_c * (1 + T), cls, *zrn)
+        _raises_any(ctx, c_h, -T, cls)
+        _raises_any(ctx, sd_nzs, -T, cls, *zrn)
+        _raises_any(ctx, c_h, np.array([T, -T, 1.0]), cls)
+        _raises_any(ctx, c_h, [T, 1.0, -T], cls)
+        _raises_any(ctx, c_h, T, case["bad"])
+        _raises_any(ctx, c_h, np.array([T, 2 * T]), case["bad"])
+        _raises_any(ctx, sd_nzs, T, case["bad"], *zrn)
+        _raises_any(ctx, t_eff, 0.0, case["bad"], *zrn)
+        d_c = scalar(ctx.lib(sd_nzs, 3.0, cls, *zrn), "sd_nzs") * G / (2 * math.pi) ** 2
+        _raises_any(ctx, t_eff, d_c * (1 + T), cls, *zrn)
     else:
         Ts = [float(t) for t in case["Ts"]]
         for t in Ts:
             tcls(t)
         arg = np.array(Ts) if case["c"] == "array" else list(Ts)
-        out = np.asarray(ctx.lib(c_h, arg, cls))
+        out = np.asarray(ctx.lib(c_h, arg, cls), dtype=float)
         ctx.shape(out, (len(Ts),), "c_h_factor(array)")
-        one = np.array([ctx.lib(c_h, t, cls) for t in Ts])
-        ctx.equal(out, one, "c_h_factor(array) vs element-wise scalar calls")
-        if case["c"] == "array":
-            ctx.equal(arg, np.array(Ts), "period array mutated")
+        one = np.array([scalar(ctx.lib(c_h, t, cls), "c_h_factor") for t in Ts])
+        ctx.close(out, one, 4 * EPS * np.abs(one), "c_h_factor(array) vs element-wise scalar calls")
+        # sd_nzs: "period: float or array" (fixed finding C20-F3)
+        sda = np.asarray(ctx.lib(sd_nzs, np.array(Ts) if case["c"] == "array" else list(Ts), cls, *zrn), dtype=float)
+        ctx.shape(sda, (len(Ts),), "sd_nzs(array)")
+        sd1 = np.array([scalar(ctx.lib(sd_nzs, t, cls, *zrn), "sd_nzs") for t in Ts])
+        ctx.close(sda, sd1, 4 * EPS * np.abs(sd1), "sd_nzs(array) vs element-wise scalar calls")
 
 
 # -- exhaustive continuity scan over a geometric period grid -----------------
@@ -887,9 +1145,9 @@ def _scan_cases(tier, shard, nshards):
 @enum_clause(CLAUSES, "nzs1170-scan", _scan_cases,
              rule="for each site class the period range [1e-4, 1e2] s in 24 chunks of a geometric grid with ratio 1+h "
                   "(h=2e-4 quick, 5e-5 thorough), chunks overlap by one point",
-             oracle="continuity to table precision everywhere (not only at the tabulated boundaries): neighbouring grid values "
-                    "of c_h_factor and sd_nzs differ by < 1 % (2h slope allowance + largest tabulated jump 0.4 %); identity "
-                    "sd_nzs == c_h_factor*T^2 at every grid point; array form == scalar form",
+             oracle="continuity to table precision everywhere (any discontinuity is a segment boundary, tabulated or not): neighbouring "
+                    "grid values of c_h_factor / sd_nzs differ by < 0.5 % + 2.05h / 3.05h (slope allowance; largest tabulated jump "
+                    "0.40 %); identity sd_nzs == c_h_factor*T^2 at every grid point; array form == scalar form (4 eps)",
              exhaustive_note="every point of the geometric grid 1e-4..1e2 s (ratio 1+h) for classes C, D, E",
              quick_shards=4)
 def nzs1170_scan(case, ctx):
@@ -904,16 +1162,361 @@ def nzs1170_scan(case, ctx):
     ctx.check(bool(np.all(np.isfinite(ch)) and np.all(ch > 0)), "c_h_factor not positive finite on the grid")
     rel = np.abs(np.diff(ch)) / np.maximum(ch[1:], ch[:-1])
     i = int(np.argmax(rel))
-    ctx.check(rel[i] < TABLE_PRECISION, "c_h_factor (%s) jumps by %.3g %% between T=%r and T=%r: %r -> %r" % (
+    ctx.check(rel[i] < TABLE_PRECISION + 2.05 * h, "c_h_factor (%s) jumps by %.3g %% between T=%r and T=%r: %r -> %r" % (
         cls, 100 * rel[i], T[i], T[i + 1], ch[i], ch[i + 1]))
-    sd = np.array([ctx.lib(sd_nzs, float(t), cls, 1.0, 1.0, 1.0) for t in T], dtype=float)
+    sd = np.array([float(np.asarray(ctx.lib(sd_nzs, float(t), cls, 1.0, 1.0, 1.0)).reshape(-1)[0]) for t in T], dtype=float)
     rel = np.abs(np.diff(sd)) / np.maximum(sd[1:], sd[:-1])
     i = int(np.argmax(rel))
-    ctx.check(rel[i] < TABLE_PRECISION, "sd_nzs (%s) jumps by %.3g %% between T=%r and T=%r: %r -> %r" % (
+    ctx.check(rel[i] < TABLE_PRECISION + 3.05 * h, "sd_nzs (%s) jumps by %.3g %% between T=%r and T=%r: %r -> %r" % (
         cls, 100 * rel[i], T[i], T[i + 1], sd[i], sd[i + 1]))
-    onb = np.array([_on_boundary(float(t), cls) for t in T])
     expect = ch * T * T
     ctx.close(sd, expect, 1e-12 * np.abs(expect), "sd_nzs vs c_h_factor*T^2 on the grid (%s)" % cls)
     step = max(1, npts // 40)
-    one = np.array([ctx.lib(c_h, float(t), cls) for t in T[::step]])
-    ctx.equal(ch[::step], one, "c_h_factor(array) vs scalar calls on the grid")
+    one = np.array([float(np.asarray(ctx.lib(c_h, float(t), cls)).reshape(-1)[0]) for t in T[::step]])
+    ctx.close(ch[::step], one, 4 * EPS * np.abs(one), "c_h_factor(array) vs scalar calls on the grid")
+
+
+# ---------------------------------------------------------------------------
+# 6. mid-range sizes of the interpolation / averaging helpers and of the array form of c_h_factor (DESIGN 8.5)
+#
+# Deterministic enumerations: sizes from gen.size_ladder / gen.product_pairs (one per logarithmic bin placed by a hash of
+# VERIF_SEED, plus the integer literals mined from the source under test); every other parameter is a hash of (VERIF_SEED, tag, i).
+# The WHOLE output is compared with a vectorised reference that is validated against the loop reference of the random clause at
+# import.
+
+
+def _ref_interp2d_fast(x, xf, f):
+    """Column-wise linear interpolation with end clamping: bracket = number of nodes <= query found by a merge of the sorted
+    queries with the nodes (stable sort of the concatenation, running count) - not np.searchsorted, not a nearest-node search;
+    weights and blend in long double.  Returns (values, |f_lo|+|f_hi|)."""
+    n = len(xf)
+    cnt = _count_le(xf, x)                      # number of nodes <= x
+    j0 = np.clip(cnt - 1, 0, n - 1)
+    j1 = np.clip(cnt, 0, n - 1)
+    j1 = np.where(cnt == 0, 0, j1)              # left of the table: clamp to the first row
+    same = (j0 == j1) | (x <= xf[0]) | (x >= xf[-1])
+    j1 = np.where(same, j0, j1)
+    if n > 0:
+        j0 = np.where(x >= xf[-1], n - 1, j0)
+        j1 = np.where(x >= xf[-1], n - 1, j1)
+    a0, a1 = xf[j0].astype(LD), xf[j1].astype(LD)
+    den = np.where(j0 == j1, LD(1), a1 - a0)
+    w = np.where(j0 == j1, LD(0), (x.astype(LD) - a0) / den)
+    lo, hi = f[j0].astype(LD), f[j1].astype(LD)
+    return lo + w[:, None] * (hi - lo), np.abs(f[j0].astype(float)) + np.abs(f[j1].astype(float))
+
+
+def _count_le(nodes, q):
+    """For every query the number of nodes <= query, by merging (nodes non-decreasing; queries in any order)."""
+    nodes = np.asarray(nodes)
+    q = np.asarray(q)
+    both = np.concatenate([nodes.astype(float), q.astype(float)])
+    is_node = np.concatenate([np.ones(len(nodes), dtype=np.int64), np.zeros(len(q), dtype=np.int64)])
+    order = np.argsort(both, kind="stable")     # ties: nodes come first (they are first in the concatenation)
+    run = np.cumsum(is_node[order])
+    cnt = np.empty(len(both), dtype=np.int64)
+    cnt[order] = run
+    return cnt[len(nodes):]
+
+
+def _validate_fast_interp():
+    rs = np.random.RandomState(7)
+    xf = np.array([-1.0, 0.0, 0.5, 2.0, 7.0])
+    f = rs.standard_normal((5, 3))
+    x = np.array([-3.0, -1.0, -0.25, 0.0, 0.3, 1.99, 2.0, 6.0, 7.0, 9.0, 0.5, -1.0])
+    a, ma = _ref_interp2d(x, xf, f)
+    b, mb = _ref_interp2d_fast(x, xf, f)
+    if not (np.all(np.abs(a - b) <= 1e-17) and np.array_equal(ma, mb)):
+        raise HarnessError("C20: vectorised interp2d reference disagrees with the loop reference")
+    xd = np.array([0.0, 1.0, 1.0, 1.0, 2.5, 4.0])
+    qs = np.array([0.0, 0.5, 1.0, 2.4, 2.5, 9.0, -1.0])
+    if list(_count_le(xd, qs)) != [1, 1, 4, 4, 5, 6, 0]:
+        raise HarnessError("C20: merge count of nodes <= query is wrong")
+
+
+_validate_fast_interp()
+
+
+def _mr_nodes(rs, n, style):
+    if style == "int":
+        return np.cumsum(rs.randint(1, 9, n)).astype(np.int64) - int(rs.randint(0, 50))
+    if style == "dyadic":
+        return (np.cumsum(rs.randint(1, 9, n)).astype(float) - float(rs.randint(0, 50))) / 64.0
+    if style == "close":   # spacing 1e-9 .. 3e-8
+        return 1e-9 * (np.cumsum(rs.uniform(1.0, 30.0, n)) + rs.uniform(-1e3, 1e3))
+    unit = 10.0 ** rs.uniform(-3, 3)
+    return unit * (np.cumsum(10.0 ** rs.uniform(-1.7, 1.0, n)) + rs.uniform(-1e3, 1e3))
+
+
+def _mr_queries(rs, xf, nq):
+    """Queries: inside (uniform over the span), exactly on nodes, exact midpoints, left and right outside - in random order."""
+    n = len(xf)
+    xff = xf.astype(float)
+    span = float(xff[-1] - xff[0]) or 1.0
+    kind = rs.randint(0, 10, nq)
+    j = rs.randint(0, max(1, n - 1), nq)
+    j2 = np.minimum(j + 1, n - 1)
+    t = rs.rand(nq)
+    x = np.where(kind <= 3, xff[j] + t * (xff[j2] - xff[j]),
+                 np.where(kind <= 5, xff[rs.randint(0, n, nq)],
+                          np.where(kind == 6, 0.5 * (xff[j] + xff[j2]),
+                                   np.where(kind == 7, xff[0] - t * span, np.where(kind == 8, xff[-1] + t * span,
+                                                                                   xff[0] + t * span)))))
+    return x
+
+
+def _interp_enum(tier, shard, nshards):
+    quick = tier == "quick"
+    # the library forms a queries x nodes matrix: the product is the work
+    pairs = list(gen.product_pairs(1e5, 1.5e7 if quick else 4e7, 12 if quick else 26, (13, 5000), (9, 300000 if quick else 2000000), "c20:i2d"))
+    for j, nn in enumerate(gen.size_ladder(13, 5000, 12 if quick else 26, "c20:i2d:n")):
+        pairs.append((int(nn), _hint(9, 300, "i2d", "q", j)))
+    for j, nq in enumerate(gen.size_ladder(9, 300000 if quick else 2000000, 10 if quick else 24, "c20:i2d:q")):
+        pairs.append((_hint(2, 12, "i2d", "n", j), int(nq)))
+    cases = []
+    for i, (nn, nq) in enumerate(pairs):
+        cases.append({"fn": "interp2d", "nn": int(nn), "nq": int(nq), "m": _hpick([1, 1, 2, 3, 7, 40], "i2d", "m", i),
+                      "style": _hpick(["float", "float", "int", "dyadic", "close"], "i2d", "st", i),
+                      "fint": _hu("i2d", "fi", i) < 0.2, "seed": _sd("i2d", i), "cost": float(nn) * nq})
+    # interp_left: nodes x queries (a search, not a product)
+    sizes = gen.size_ladder(13, 300000 if quick else 2000000, 12 if quick else 26, "c20:il")
+    for i, nn in enumerate(sizes):
+        cases.append({"fn": "interp_left", "nn": int(nn), "nq": _hint(1, 300000 if quick else 1000000, "il", "q", i),
+                      "style": _hpick(["float", "int", "dyadic", "dup", "dup"], "il", "st", i),
+                      "y": _hpick(["none", "float", "int", "2d"], "il", "y", i), "xc": _hpick(["array", "array", "list"], "il", "xc", i),
+                      "qc": _hpick(["array", "array", "list", "scalar"], "il", "qc", i), "below": _hu("il", "below", i) < 0.15,
+                      "seed": _sd("il", i), "cost": 3e3 * (nn + 1e3)})
+    return _deal(cases, shard, nshards)
+
+
+@enum_clause(CLAUSES, "mid-range-interp", _interp_enum,
+             rule="interp2d: 13 .. 5000 nodes x 9 .. 3e5 queries (thorough 2e6) with the product nodes x queries laddered over 1e5 .. 1.5e7 "
+                  "(thorough 4e7) and each dimension laddered on its own, 1 .. 40 columns, float / integer / dyadic / closely spaced "
+                  "(1e-9) nodes, queries inside / on nodes / midpoints / outside in random order; interp_left: 13 .. 3e5 nodes (float / "
+                  "int / dyadic / with repeated nodes), 1 .. 3e5 queries, y None / float / int / 2-D, lists and arrays, scalar query",
+             oracle="reference model over the WHOLE output: bracket by a merge count of nodes <= query (validated against the linear scan "
+                    "at import), long-double blend, 1e-12*(|f_lo|+|f_hi|); interp_left: value at the greatest node <= query (exact; any "
+                    "equal node for repeated nodes); a query below the first node -> some exception",
+             exhaustive_note="the laddered (nodes, queries) pairs", quick_shards=4)
+def mid_range_interp(c, ctx):
+    rs = np.random.RandomState(int(c["seed"]))
+    nn, nq = int(c["nn"]), int(c["nq"])
+    ctx.nt(True)
+    ctx.cls("fn=" + c["fn"], "nodes=" + c["style"], "nodes>700" if nn > 700 else ("nodes>64" if nn > 64 else "nodes<=64"),
+            "queries>20000" if nq > 20000 else ("queries>700" if nq > 700 else "queries<=700"),
+            "product>4e6" if c["fn"] == "interp2d" and nn * nq > 4e6 else None)
+    if c["fn"] == "interp2d":
+        xf = _mr_nodes(rs, nn, c["style"])
+        x = _mr_queries(rs, xf, nq)
+        if xf.dtype.kind == "i" and rs.rand() < 0.5:
+            x = np.round(x).astype(np.int64)
+        m = int(c["m"])
+        f = rs.randint(-20, 21, (nn, m)).astype(np.int64) if c["fint"] else rs.standard_normal((nn, m)) * 10.0 ** rs.uniform(-2, 3)
+        out = np.asarray(ctx.lib(eqsig.fns.interp2d, x, xf, f))
+        ctx.shape(out, (nq, m), "interp2d result")
+        ref, mag = _ref_interp2d_fast(np.asarray(x), xf, f)
+        ctx.close(out, ref, 1e-12 * mag, "interp2d (%d nodes, %d queries, %d columns, %s nodes) vs column-wise linear interpolation "
+                  "with end clamping" % (nn, nq, m, c["style"]))
+        return
+    # interp_left
+    style = c["style"]
+    if style == "dup":
+        xf = np.cumsum(rs.randint(0, 3, nn)).astype(np.int64)
+    else:
+        xf = _mr_nodes(rs, nn, style)
+    x = _mr_queries(rs, xf, nq)
+    x = np.where(x < xf[0], float(xf[0]), x)       # inside the domain: at or above the first node
+    if xf.dtype.kind == "i" and c["qc"] == "list":
+        x = np.round(x).astype(np.int64)
+    ykind = c["y"]
+    if ykind == "none":
+        y_arg, yv = None, np.arange(nn)
+    elif ykind == "float":
+        yv = rs.standard_normal(nn)
+        y_arg = yv.copy()
+    elif ykind == "int":
+        yv = rs.randint(-100, 101, nn)
+        y_arg = [int(v) for v in yv]
+    else:
+        yv = rs.standard_normal((nn, 2))
+        y_arg = yv.copy()
+    x_arg = xf.tolist() if c["xc"] == "list" else xf.copy()
+    ctx.cls("y=" + ykind, "q=" + c["qc"])
+    if c["below"]:
+        ctx.cls("rejects")
+        xb = np.array(x, dtype=float)
+        xb[int(rs.randint(0, len(xb)))] = float(xf[0]) - (abs(float(xf[0])) * 1e-9 + 1e-9 if style != "int" and style != "dup" else 1.0)
+        ctx.raises(Exception, eqsig.fns.interp_left, xb.tolist() if c["qc"] == "list" else xb, x_arg, y_arg)
+    if c["qc"] == "scalar":
+        q = x[0].item()
+        out = ctx.lib(eqsig.fns.interp_left, q, x_arg, y_arg)
+        got = np.asarray(out)[None] if ykind != "2d" else np.asarray(out)[None, :]
+        x = x[:1]
+    else:
+        q_arg = x.tolist() if c["qc"] == "list" else x.copy()
+        got = np.asarray(ctx.lib(eqsig.fns.interp_left, q_arg, x_arg, y_arg))
+    ctx.shape(got, (len(x),) + tuple(yv.shape[1:]), "interp_left result")
+    cnt = _count_le(xf, x)
+    if np.any(cnt < 1):
+        raise HarnessError("mid-range interp_left: query below the first node was generated")
+    j = cnt - 1                                     # greatest node <= query (the last of equal nodes)
+    want = yv[j]
+    okm = got == want
+    if style == "dup" and not np.all(okm):
+        # repeated nodes: the value at ANY of the equal greatest nodes is accepted
+        first = _count_le(xf, xf[j] - 0.5)          # integer nodes: number of nodes < xf[j] = index of the first equal node
+        bad = np.nonzero(~(okm if okm.ndim == 1 else np.all(okm, axis=1)))[0]
+        for b in bad[:2000]:
+            allowed = yv[first[b]:j[b] + 1]
+            if not np.any(np.all(np.atleast_2d(allowed == got[b]).reshape(len(allowed), -1), axis=1)):
+                ctx.fail("interp_left (%d nodes with repeats, %d queries): query %r -> %r, values at the greatest node(s) <= query: %r" % (
+                    nn, len(x), x[b], got[b], allowed[:4]))
+        if len(bad) > 2000:
+            raise HarnessError("mid-range interp_left: too many repeated-node alternatives to examine")
+        return
+    if not np.all(okm):
+        b = int(np.argwhere(~okm)[0][0])
+        ctx.fail("interp_left (%d %s nodes, %d queries, y=%s): query %r -> %r, value at the greatest node <= query (index %d) is %r" % (
+            nn, style, len(x), ykind, x[b], got[b], j[b], want[b]))
+
+
+def _roll_enum(tier, shard, nshards):
+    quick = tier == "quick"
+    sizes = sorted(set(gen.size_ladder(1513, 300000 if quick else 2000000, 14 if quick else 30, "c20:roll")) |
+                   {int((300000 if quick else 2000000) * (1 + 0.1 * _hu("rolltop")))})
+    cases = []
+    for i, n in enumerate(sizes):
+        for k, sk in enumerate(_hpick([("small", "frac"), ("mid", "len"), ("frac", "one"), ("mid", "frac")], "roll", "sk", i)):
+            steps = {"one": 1, "len": int(n), "small": _hint(2, 64, "roll", "s", i, k), "mid": _hint(65, max(66, n // 3), "roll", "s", i, k),
+                     "frac": max(1, int(n * (0.34 + 0.66 * _hu("roll", "s", i, k))))}[sk]
+            cases.append({"n": int(n), "steps": int(steps), "mode": _hpick(_MODES, "roll", "m", i, k), "seed": _sd("roll", i, k),
+                          "kind": _hpick(["noise", "noise", "walk", "grid", "int"], "roll", "kind", i, k),
+                          "as": _hpick(["array", "array", "list"], "roll", "as", i, k), "npint": _hu("roll", "np", i, k) < 0.3,
+                          "cost": float(n)})
+    return _deal(cases, shard, nshards)
+
+
+@enum_clause(CLAUSES, "mid-range-rolling", _roll_enum,
+             rule="series of 1513 .. 3e5 samples (thorough 2e6): noise x envelope + offset, random walk, dyadic-grid and integer data; "
+                  "window sizes 1, 2..64, 65..n/3, n/3..n, n; the four mode strings; ndarray / list; python and NumPy integer steps",
+             oracle="reference model over the WHOLE output: window sums from long-double prefix sums of the edge-replicated series "
+                    "(error 1e-19*sum|v|), cross-checked at import against direct windowed sums; same bounds as rolling-average; length kept",
+             exhaustive_note="the laddered lengths x two window sizes", quick_shards=4)
+def mid_range_rolling(c, ctx):
+    n, steps, mode = int(c["n"]), int(c["steps"]), c["mode"]
+    rs = np.random.RandomState(int(c["seed"]))
+    t = np.arange(n) / float(n)
+    if c["kind"] == "walk":
+        v = np.cumsum(rs.standard_normal(n)) / math.sqrt(n) + 0.3
+    else:
+        v = rs.standard_normal(n) * (0.6 + 0.8 * t) + 0.11
+    exact = c["kind"] in ("grid", "int")
+    if c["kind"] == "grid":
+        v = np.round(v * 1024.0) / 1024.0
+    if c["kind"] == "int":
+        v = np.round(v * 100.0)
+        arg = v.astype(np.int64)
+    else:
+        arg = [float(x) for x in v] if c["as"] == "list" else v.copy()
+    ctx.nt(True)
+    ctx.cls("mode=" + mode, "kind=" + c["kind"], "steps=1" if steps == 1 else ("steps=len" if steps == n else (
+        "steps<=64" if steps <= 64 else "steps>64")), "n>20000" if n > 20000 else "n<=20000", "exact-dyadic" if exact else None)
+    out = np.asarray(ctx.lib(eqsig.fns.calc_roll_av_vals, arg, np.int64(steps) if c["npint"] else steps, mode=mode))
+    ctx.shape(out, (n,), "rolling average (length kept)")
+    vmax = float(np.max(np.abs(v)))
+    tol_abs = EPS * (float(np.sum(np.abs(v))) + (steps - 1) * vmax) + 4 * EPS * vmax
+    msgs = []
+    for a, b in _window_offsets(mode, steps):
+        wsum, wabs = _window_sums(v, a, b)
+        expect = wsum / LD(steps)
+        tol = (steps + 4) * EPS * wabs / steps if exact else np.full(n, tol_abs)
+        d = np.abs(out.astype(LD) - expect)
+        bad = ~(d <= tol)
+        if not np.any(bad):
+            return
+        i = int(np.argmax(bad))
+        msgs.append("window [i%+d, i%+d]: sample %d got %r expected %r (tol %.3g; %d of %d samples out)" % (
+            a, b, i, out[i], float(expect[i]), tol[i], int(np.sum(bad)), n))
+    ctx.fail("calc_roll_av_vals(n=%d, steps=%d, mode=%r) is not the edge-replicated window mean: %s" % (n, steps, mode, "; ".join(msgs)))
+
+
+def _window_sums(v, a, b):
+    """Sums of v and |v| over the window [i+a, i+b] with indices clamped to the ends (edge replication), for every i, from
+    long-double prefix sums of the extended series."""
+    n = len(v)
+    ext = np.concatenate([np.full(max(0, -a), v[0]), v, np.full(max(0, b), v[-1])]).astype(LD)
+    off = max(0, -a)                             # ext[off + i] = v[i]
+    c = np.concatenate([[LD(0)], np.cumsum(ext)])
+    ca = np.concatenate([[0.0], np.cumsum(np.abs(np.asarray(ext, dtype=float)))])
+    i = np.arange(n)
+    lo, hi = off + i + a, off + i + b + 1
+    return c[hi] - c[lo], ca[hi] - ca[lo]
+
+
+def _validate_window_sums():
+    v = np.sin(np.arange(23.0) * 0.9) + 0.2
+    for a, b in ((0, 4), (-4, 0), (-2, 2), (-3, 2), (0, 22), (-22, 0), (0, 0)):
+        ws, wa = _window_sums(v, a, b)
+        for i in range(len(v)):
+            win = v[np.clip(np.arange(i + a, i + b + 1), 0, len(v) - 1)]
+            if abs(float(ws[i]) - float(np.sum(win))) > 1e-13 or abs(wa[i] - float(np.sum(np.abs(win)))) > 1e-13:
+                raise HarnessError("C20: prefix-sum window reference disagrees with direct windowed sums")
+
+
+_validate_window_sums()
+
+
+def _nzs_array_enum(tier, shard, nshards):
+    quick = tier == "quick"
+    sizes = gen.size_ladder(13, 100000 if quick else 1000000, 10 if quick else 22, "c20:nzs")
+    cases = [{"n": int(n), "cls": _hpick(["C", "D", "E"], "nzs", "cls", i), "seed": _sd("nzs", i), "c": _hpick(["array", "array", "list"], "nzs", "c", i),
+              "cost": float(n)} for i, n in enumerate(sizes)]
+    return _deal(cases, shard, nshards)
+
+
+@enum_clause(CLAUSES, "mid-range-nzs-array", _nzs_array_enum,
+             rule="c_h_factor on period arrays / lists of 13 .. 1e5 entries (thorough 1e6): log-uniform 1e-4..1e2 s, exact zeros, tabulated "
+                  "boundaries and their neighbours, in random order",
+             oracle="metamorphic over the WHOLE output: an element-wise function commutes with reversal and with cutting the array into "
+                    "hash-chosen pieces (4 eps); differential: scalar calls of c_h_factor and sd_nzs/T^2 at the entries {first, last, "
+                    "-1|0|+1 mod 2^k, hash-chosen}; neighbouring sorted periods obey the continuity bound",
+             exhaustive_note="the laddered array lengths", quick_shards=4)
+def mid_range_nzs_array(c, ctx):
+    n, cls = int(c["n"]), c["cls"]
+    rs = np.random.RandomState(int(c["seed"]))
+    T = 10.0 ** rs.uniform(-4, 2, n)
+    special = rs.rand(n)
+    bnd = np.array(BOUNDS[cls])[rs.randint(0, 4, n)]
+    T = np.where(special < 0.03, 0.0, np.where(special < 0.10, bnd * rs.choice([1 - 1e-9, 1.0, 1 + 1e-9], n), T))
+    arg = T.copy() if c["c"] == "array" else [float(t) for t in T]
+    ctx.nt(True)
+    ctx.cls("class=" + cls, "c=" + c["c"], "n>5000" if n > 5000 else "n<=5000")
+    out = np.asarray(ctx.lib(c_h, arg, cls), dtype=float)
+    ctx.shape(out, (n,), "c_h_factor(array of %d)" % n)
+    ctx.check(bool(np.all(np.isfinite(out)) and np.all(out > 0)), "c_h_factor(array of %d) not positive finite" % n)
+    rev = np.asarray(ctx.lib(c_h, T[::-1].copy(), cls), dtype=float)[::-1]
+    ctx.close(out, rev, 4 * EPS * np.abs(rev), "c_h_factor(array of %d) vs the reversed array evaluated and reversed back" % n)
+    cuts = sorted(set([0, n] + [int(_hu("cut", j, n, c["seed"]) * n) for j in range(3)]))
+    pieces = [np.atleast_1d(np.asarray(ctx.lib(c_h, T[a:b].copy(), cls), dtype=float)) for a, b in zip(cuts[:-1], cuts[1:]) if b > a]
+    cat = np.concatenate(pieces)
+    ctx.close(out, cat, 4 * EPS * np.abs(cat), "c_h_factor(array of %d) vs the array evaluated in pieces cut at %r" % (n, cuts))
+    idx = _seam_indices(n, 60, "nzs")
+    one = np.array([float(np.asarray(ctx.lib(c_h, float(T[i]), cls)).reshape(-1)[0]) for i in idx])
+    ctx.close(out[idx], one, 4 * EPS * np.abs(one), "c_h_factor(array of %d) vs scalar calls at entries %r..." % (n, idx[:6].tolist()))
+    sd = np.array([float(np.asarray(ctx.lib(sd_nzs, float(T[i]), cls, 1.0, 1.0, 1.0)).reshape(-1)[0]) for i in idx])
+    ctx.close(sd, out[idx] * T[idx] ** 2, 1e-12 * np.abs(sd) + 1e-300, "sd_nzs vs c_h_factor(array)*T^2 at the sampled entries")
+    # the array form of sd_nzs over the WHOLE array: identity with c_h_factor(array) and agreement with the scalar calls
+    sda = np.asarray(ctx.lib(sd_nzs, arg, cls, 1.0, 1.0, 1.0), dtype=float)
+    ctx.shape(sda, (n,), "sd_nzs(array of %d)" % n)
+    ctx.close(sda, out * T * T, 1e-12 * np.abs(out * T * T) + 1e-300, "sd_nzs(array of %d) vs c_h_factor(array)*T^2" % n)
+    ctx.close(sda[idx], sd, 4 * EPS * np.abs(sd) + 1e-300, "sd_nzs(array of %d) vs scalar calls at the sampled entries" % n)
+    # continuity over the sorted periods: neighbours a factor (1+d) apart differ by <= 2.05 d + table precision
+    order = np.argsort(T, kind="stable")
+    Ts, cs = T[order], out[order]
+    pos = Ts[:-1] > 0
+    d = np.where(pos, Ts[1:] / np.where(pos, Ts[:-1], 1.0) - 1.0, np.inf)
+    rel = np.abs(np.diff(cs)) / np.maximum(cs[1:], cs[:-1])
+    bad = rel > 2.05 * d + TABLE_PRECISION + 16 * EPS
+    if np.any(bad):
+        i = int(np.argmax(bad))
+        ctx.fail("c_h_factor(array of %d, %s): periods %r and %r get %r and %r (%.3g %% apart)" % (n, cls, Ts[i], Ts[i + 1], cs[i], cs[i + 1], 100 * rel[i]))
